@@ -220,6 +220,17 @@ TOLERANT_USES = [
     "{{ xs | concat: e | first | default: @ | default: 'z' }}", "{% if xs contains @ %}y{% else %}n{% endif %}", "{{ 'a' | default: @ }}", "{{ false | default: @, allow_false: true }}|",
     "{{ nil | default: @ | default: 'q' }}", "{% assign w = @ %}{% if w %}y{% else %}n{% endif %}", "{% capture w %}{% if @ %}y{% endif %}{% endcapture %}[{{ w }}]",
 ]
+# two missing values in one template, in places that do not print them: what a missing value *is* (which path, which hint) must not leak into
+# anything the default type and the strict types do differently
+PAIR_PATHS = ["nosuch", "nosuch2", "h.x", "h.y", "h.x.k", "h.y.k", "h['x']", "xs[8]", "xs[9]", "d.a.nope", "d.a.nope2", "e.first", "e.last", "s.nope"]
+PAIR_USES = [
+    "{% cycle 1, 2, @1 %}{% cycle 1, 2, @2 %}", "{% cycle 1, @1 %}|{% cycle 1, @2 %}", "{% cycle 'a', 'b', @1 %}{% cycle 'a', 'b', @2 %}{% cycle 'a', 'b', @1 %}",
+    "{% for i in (1..2) %}{% cycle 1, 2, 3, @1 %}{% cycle 1, 2, 3, @2 %}{% endfor %}", "{% cycle 'g': 1, 2, @1 %}{% cycle 'g': 1, 2, @2 %}", "{% cycle @1: 1, 2 %}{% cycle @2: 1, 2 %}",
+    "{% cycle @1, 1, 2 %}{% cycle @2, 1, 2 %}{% cycle @1, 1, 2 %}{% cycle @2, 1, 2 %}", "{% if @1 == @2 %}y{% else %}n{% endif %}", "{{ @1 | default: @2 | default: 'z' }}",
+    "{% assign v = @1 %}{% assign w = @2 %}{% if v == w %}y{% else %}n{% endif %}", "{{ os | where: 'k', @1 | size }}{{ os | where: 'k', @2 | size }}", "{% case @1 %}{% when @2 %}y{% else %}n{% endcase %}",
+    "{% ifchanged %}{% if @1 %}a{% else %}b{% endif %}{% endifchanged %}{% ifchanged %}{% if @2 %}a{% else %}b{% endif %}{% endifchanged %}",
+    "{% assign l = @1 | default: nil %}{% assign r = @2 | default: nil %}{{ l == r }}",
+]
 PROBE_DATA = {"zero": 0, "os": [{"k": 1}, {"j": 2}, {"k": None}, {"k": False}], "h": {"a": 1, "e2": []}, "xs": [1], "e": [], "eh": {}, "s": "str", "n": 5, "d": {"a": {"b": 1}, "list": ["p"]}}
 
 
@@ -239,6 +250,13 @@ def cases(ctx: core.Ctx):
             if k % ctx.nshards != ctx.shard:
                 continue
             yield {"source": t.replace("@", path), "data": V.enc(PROBE_DATA), "async": k % 4 == 0}
+    for p1 in PAIR_PATHS:
+        for p2 in PAIR_PATHS:
+            for t in PAIR_USES:
+                k += 1
+                if k % ctx.nshards != ctx.shard or (ctx.tier == "quick" and p1 == p2 and k % 3):
+                    continue
+                yield {"source": t.replace("@1", p1).replace("@2", p2), "data": V.enc(PROBE_DATA), "async": k % 4 == 0}
     rng = ctx.rng("cases")
     for _ in range(ctx.budget(5000, 400_000)):
         yield gen_case(rng)
